@@ -108,7 +108,7 @@ pub fn judge(_part: &str, case: &Case, tally: &mut Tally) -> Verdict {
     spec_judge(case, &SpecOpts { own: Class::Print, scrollback: false }, tally, &mut on_step)
 }
 
-fn gen_random(src: &mut Src, _i: usize) -> Case {
+pub fn gen_random(src: &mut Src, _i: usize) -> Case {
     use gen::*;
     burst_case(
         src,
@@ -123,7 +123,7 @@ fn gen_random(src: &mut Src, _i: usize) -> Case {
 
 /// targeted: reach the wrap-pending position, resize (wider / narrower / same width other
 /// height), then print — a wrap-pending flag surviving a width change would show
-fn gen_pending_resize(src: &mut Src, _i: usize) -> Case {
+pub fn gen_pending_resize(src: &mut Src, _i: usize) -> Case {
     let (cols, rows) = gen::small_size(src);
     let mut s = String::new();
     if src.chance(1, 3) {
